@@ -100,6 +100,17 @@ def gen_inputs(rng):
     wtext = G.to_pdb([resw], [G.water(rng, "A", 900 + i, cw, 9.0) for i in range(2)])
     runs.insert(0, (wtext, ["--ff=AMBER", "--nodebump", "--noopt"], None))
     runs.insert(1, (wtext, ["--ff=AMBER", "--nodebump", "--noopt", "--usernames=@DIR@/nowat.names"], {"nowat.names": nowat}))
+    # a PROPKA-driven run that carries PROPKA options pdb2pqr resets before use ("ignored" options: a chain
+    # selection, --keep-protons): two chains with acidic groups at a pH that protonates them
+    _fa, ra = G.window(rng, 3, must_have=rng.choice(["ASP", "GLU"]))
+    _fb, rb = G.window(rng, 3, must_have=rng.choice(["ASP", "GLU", "HIS"]))
+    G.set_chain(ra, "A", 1)
+    G.set_chain(rb, "B", 101)
+    for r in rb:
+        for a in r:
+            a.x += 40.0
+    ptext = G.to_pdb([ra, rb])
+    runs.append((ptext, ["--ff=PARSE", "--titration-state-method=propka", f"--with-ph={rng.choice([1.5, 2.5, 3.5])}", "--chain=A"] + (["--keep-protons"] if rng.random() < 0.5 else []), None))
     _f, res = G.window(rng, 3)
     G.set_chain(res, "A", 1)
     good = G.to_pdb([res])
@@ -197,7 +208,7 @@ def hash_seeds(ctx: Ctx, n):
         runs, _fails = gen_inputs(rng)
         # ligand complex / the run with a user-supplied names file (after the plain run of the same force field
         # was made in this process) / multi-model mmCIF
-        r = runs[-1] if ci % 3 == 0 else runs[1]
+        r = runs[-2] if ci % 3 == 0 else runs[1] if ci % 6 != 1 else runs[-1]
         text, opts, extra = r
         inname = "in.pdb"
         if ci % 3 == 2:
